@@ -2,15 +2,25 @@
 # usage: seedtest.sh <dir-with-patch.diff> <PROP> [runs] [workers]
 # Tries a seeded change without touching /repo: a scratch worktree (/var/tmp/wt-seed) and a scratch
 # copy of /verif/sim bound to it (/var/tmp/seedtest) are used; prints the violation keys of PROP.
+# LANE (env, default empty): a second lane (LANE=2) uses /var/tmp/wt-seed2 and /var/tmp/seedtest2, so
+# that two trials can run side by side.
 d=$1; P=$2; N=${3:-600}; W=${4:-6}
-cd /var/tmp/wt-seed && git checkout -q -- . && git checkout -q --detach main && git apply $d/patch.diff || { echo "PATCH DOES NOT APPLY"; exit 3; }
-rsync -a --delete --exclude reposrc --exclude .cargo /verif/sim/ /var/tmp/seedtest/sim/
-cd /var/tmp/seedtest/sim && cargo build 2>&1 | grep -E "^error" -A8
+WT=/var/tmp/wt-seed$LANE; ST=/var/tmp/seedtest$LANE
+if [ ! -d $WT ]; then git -C /repo worktree add --detach $WT main -q; fi
+if [ ! -d $ST/sim ]; then
+  mkdir -p $ST/sim/.cargo
+  printf '[net]\noffline = true\n[build]\ntarget-dir = "%s/target"\n' $ST > $ST/sim/.cargo/config.toml
+  ln -sfn $WT/src $ST/sim/reposrc
+  ln -sfn /verif/vendor $ST/vendor
+fi
+cd $WT && git checkout -q -- . && git checkout -q --detach main && git apply $d/patch.diff || { echo "PATCH DOES NOT APPLY"; exit 3; }
+rsync -a --delete --exclude reposrc --exclude .cargo /verif/sim/ $ST/sim/
+cd $ST/sim && cargo build 2>&1 | grep -E "^error" -A8
 CMD=run; if [ "$P" = "C08" ]; then CMD=crash; N=$((N/10)); fi   # C08: N/10 histories, every sampled write boundary
 for w in $(seq 0 $((W-1))); do
-  /var/tmp/seedtest/target/debug/vsim $CMD --prop $P --seed 1 --from $w --step $W --count $((N/W)) > /var/tmp/seedtest/out-$w.jsonl 2>/dev/null &
+  $ST/target/debug/vsim $CMD --prop $P --seed 1 --from $w --step $W --count $((N/W)) > $ST/out-$w.jsonl 2>/dev/null &
 done
 wait
-cat /var/tmp/seedtest/out-*.jsonl | python3 /var/tmp/summ.py | grep -v "^cov"
-rm -f /var/tmp/seedtest/out-*.jsonl
-cd /var/tmp/wt-seed && git checkout -q -- .
+cat $ST/out-*.jsonl | python3 /verif/summ.py | grep -v "^cov"
+rm -f $ST/out-*.jsonl
+cd $WT && git checkout -q -- .
